@@ -63,6 +63,38 @@ def call(sig: str, fn: Callable, *args, allowed: tuple = (), **kwargs):
         raise Violation(f"{sig}:raises:{type(e).__name__}", _short(e)) from e
 
 
+def raised_in_library(e: BaseException) -> bool:
+    """exception bucketing by the innermost package frame: walking the traceback from the raise point outwards and skipping third-party /
+    standard-library frames, is the first frame that belongs to either party a frame of the code under test (maze_dataset) or a frame
+    of the harness (mzverif)? An exception raised in the library while it is handling an input the harness generated is a violation
+    (the property cannot hold on an input that crashes); one raised by the harness' own code is a harness error (exit 2)."""
+    lib_root = os.path.join(os.path.realpath(os.environ.get("VERIF_REPO", "/repo")), "maze_dataset") + os.sep
+    frames = []
+    tb = e.__traceback__
+    while tb is not None:
+        frames.append(os.path.realpath(tb.tb_frame.f_code.co_filename))
+        tb = tb.tb_next
+    for fn in reversed(frames):
+        if fn.startswith(lib_root):
+            return True
+        if (os.sep + "mzverif" + os.sep) in fn:
+            return False
+    return False
+
+
+def as_violation(e: BaseException, prop: str):
+    """Violation for an exception that escaped from library code at a call site the check did not wrap"""
+    tb = e.__traceback__
+    where = ""
+    lib_root = os.path.join(os.path.realpath(os.environ.get("VERIF_REPO", "/repo")), "maze_dataset") + os.sep
+    while tb is not None:
+        fn = os.path.realpath(tb.tb_frame.f_code.co_filename)
+        if fn.startswith(lib_root):
+            where = f"{os.path.basename(fn)}:{tb.tb_frame.f_code.co_name}"
+        tb = tb.tb_next
+    return Violation(f"{prop}:library-raises:{type(e).__name__}", f"{where}: {_short(e, 200)}")
+
+
 DOCUMENTED_GENERATION_ERRORS = ("no valid start or end positions", "larger sample than population", "Cannot take a larger sample", "high <= 0")
 
 
@@ -210,6 +242,7 @@ def load_known(prop: str) -> list[dict]:
 
 
 _KNOWN_ACTIVE: list[dict] = []
+_CURRENT_PROP: str = "C??"
 
 
 def _known_match(sig: str, case: Any) -> bool:
@@ -281,7 +314,11 @@ def _guarded(sub: Sub, case: Any, stats: Stats, fails: dict) -> None:
     except Discard:
         stats.discarded += 1
         return
-    except Violation as v:
+    except (Violation, Exception) as v:  # noqa: BLE001
+        if not isinstance(v, Violation):
+            if not raised_in_library(v):
+                raise
+            v = as_violation(v, _CURRENT_PROP)
         if _known_match(v.sig, case):
             stats.excluded_known += 1
             return
@@ -320,12 +357,16 @@ def _hypothesis_shard(sub: Sub, shard: int, seed_base: int):
         except Discard:
             stats.discarded += 1
             return
-        except Violation as v:
+        except (Violation, Exception) as v:  # noqa: BLE001
+            if not isinstance(v, Violation):
+                if type(v).__module__.startswith("hypothesis") or not raised_in_library(v):
+                    raise
+                v = as_violation(v, _CURRENT_PROP)
             if _known_match(v.sig, case):
                 stats.excluded_known += 1
                 return
             last["f"] = Failure(sub.name, v.sig, v.msg, json.loads(canon(case)))
-            raise
+            raise v
         stats.record(case, info)
 
     phases = [Phase.generate, Phase.shrink]
@@ -472,9 +513,10 @@ def write_evidence(prop: str, ev: dict, strict: bool = True) -> str:
 
 def run_property(mod, tier: str) -> int:
     """returns process exit code"""
-    global _KNOWN_ACTIVE
+    global _KNOWN_ACTIVE, _CURRENT_PROP
     t0 = time.time()
     prop = mod.ID
+    _CURRENT_PROP = prop
     known = load_known(prop)
     _KNOWN_ACTIVE = known
     checks = {s.name: s for s in mod.subs(tier)}
@@ -501,6 +543,10 @@ def run_property(mod, tier: str) -> int:
             failed = None
         except Violation as v:
             failed = v
+        except Exception as ex:  # noqa: BLE001
+            if not raised_in_library(ex):
+                raise
+            failed = as_violation(ex, prop)
         finally:
             _KNOWN_ACTIVE = saved
         if e.get("status") == "known":
@@ -627,7 +673,11 @@ def run_replay(mod, path: str) -> int:
     except Discard:
         print(f"replay {path}: case discarded by precondition")
         return 0
-    except Violation as v:
+    except (Violation, Exception) as v:  # noqa: BLE001
+        if not isinstance(v, Violation):
+            if not raised_in_library(v):
+                raise
+            v = as_violation(v, mod.ID)
         print(f"VIOLATION property={mod.ID} replay={path}")
         print(f"  signature={v.sig}")
         print(f"  {v.msg}")
@@ -679,6 +729,7 @@ sys.path.insert(0, {verif!r})
 import importlib
 from mzverif import core
 core._KNOWN_ACTIVE = core.load_known({prop!r})
+core._CURRENT_PROP = {prop!r}
 mod = importlib.import_module("mzverif.props." + {prop!r})
 sub = [s for s in mod.subs({tier!r}) if s.name == {inner!r}][0]
 sub.examples = {examples}
